@@ -146,7 +146,14 @@ pub fn mutate(r: &mut Rng, t: &Term) -> Term {
             }
         }
         App(b) => {
-            let c = r.below(4);
+            let c = r.below(5);
+            if c == 4 {
+                // drop an INNER argument of an application spine: f a b  ->  f b
+                if let App(inner) = &b.0 {
+                    return app(inner.0.clone(), b.1.clone());
+                }
+                return app(b.0.clone(), mutate(r, &b.1));
+            }
             if c == 0 {
                 app(b.1.clone(), b.0.clone())
             } else if c == 1 {
